@@ -19,20 +19,23 @@ def csAfter (c : Cfg) (al : Alloc) (p : List Octet) : CS × Alloc :=
   else
     ({ blk := some (p.take (c.B - c.F)),
        err := if p.length > c.B - c.F then some .enomem else none,
-       count := if p.length > c.B - c.F then c.F + p.length else 0 },
+       count := if p.length > c.B - c.F then min c.F c.B + p.length else 0 },
      { script := al.script.tail, live := al.live + 1 })
 
-theorem csStep_after (c : Cfg) (al : Alloc) (hcap : 0 < c.B - c.F) (p : List Octet) (o : Octet) :
+theorem csStep_after (c : Cfg) (al : Alloc) (p : List Octet) (o : Octet) :
     csStep c (csAfter c al p) o = csAfter c al (p ++ [o]) := by
   by_cases hp : p = []
   · subst hp
     simp only [csAfter, ↓reduceIte, csStep, List.nil_append, List.cons_ne_self, List.length_singleton]
     by_cases hf : al.script.head?.getD false = true
     · simp [hf, RP_HEADER_SIZE]
-    · simp only [hf, Bool.false_eq_true, ↓reduceIte, hcap]
-      have : ¬ 1 > c.B - c.F := by omega
-      simp [this]
-      exact (List.take_of_length_le (by simp; omega)).symm
+    · by_cases hcap : 0 < c.B - c.F
+      · simp only [hf, Bool.false_eq_true, ↓reduceIte, hcap]
+        have : ¬ 1 > c.B - c.F := by omega
+        simp [this]
+        exact (List.take_of_length_le (by simp; omega)).symm
+      · have h0 : c.B - c.F = 0 := by omega
+        simp [hf, hcap, h0]
   · have hne : p ++ [o] ≠ [] := by simp
     simp only [csAfter, hp, hne, ↓reduceIte]
     by_cases hf : al.script.head?.getD false = true
@@ -66,7 +69,7 @@ theorem csStep_after (c : Cfg) (al : Alloc) (hcap : 0 < c.B - c.F) (p : List Oct
           omega
 
 /-- `run_continuable_sink` over a whole frame -/
-theorem csRun_eq (c : Cfg) (al : Alloc) (hcap : 0 < c.B - c.F) (got : List Octet) :
+theorem csRun_eq (c : Cfg) (al : Alloc) (got : List Octet) :
     csRun c al got = csAfter c al got := by
   have key : ∀ (rest p : List Octet), rest.foldl (csStep c) (csAfter c al p) = csAfter c al (p ++ rest) := by
     intro rest
@@ -74,7 +77,7 @@ theorem csRun_eq (c : Cfg) (al : Alloc) (hcap : 0 < c.B - c.F) (got : List Octet
     | nil => intro p; simp
     | cons o os ih =>
       intro p
-      simp only [List.foldl_cons, csStep_after c al hcap p o, ih (p ++ [o])]
+      simp only [List.foldl_cons, csStep_after c al p o, ih (p ++ [o])]
       simp
   have := key got []
   simpa [csRun, csAfter] using this
@@ -174,7 +177,7 @@ def errOf : Except Err (Hdr × Nat) → Option Err
 
 /-- the frame fitted into the block: it is returned, parsed, with the ledger counting it -/
 theorem recv_stored (p : Inst) (raw : List Octet) (rest : List SrcEv)
-    (hch : channelRecv p.cfg p.src = (none, raw, rest)) (hcap : 0 < p.cfg.B - p.cfg.F)
+    (hch : channelRecv p.cfg p.src = (none, raw, rest))
     (hne : raw ≠ []) (hal : p.al.script.head?.getD false = false) (hfit : raw.length ≤ p.cfg.B - p.cfg.F) :
     (regp_recv p).2.1 = { err := errOf (parse_frame raw).1, framesize := 0,
                           frame := some { raw := raw, hdr := (parse_frame raw).2 } } ∧
@@ -190,7 +193,7 @@ theorem recv_stored (p : Inst) (raw : List Octet) (rest : List SrcEv)
          else (none, p.snk)) := by
   have hgt : ¬ raw.length > p.cfg.B - p.cfg.F := by omega
   have htk : raw.take (p.cfg.B - p.cfg.F) = raw := List.take_of_length_le hfit
-  simp only [regp_recv, hch, csRun_eq p.cfg p.al hcap raw, csAfter, hne, hal, Bool.false_eq_true, ↓reduceIte, hgt, htk]
+  simp only [regp_recv, hch, csRun_eq p.cfg p.al raw, csAfter, hne, hal, Bool.false_eq_true, ↓reduceIte, hgt, htk]
   rcases hpf : parse_frame raw with ⟨r, h⟩
   cases r with
   | ok v => simp [errOf]
@@ -203,7 +206,7 @@ theorem recv_stored (p : Inst) (raw : List Octet) (rest : List SrcEv)
 
 /-- no block could be obtained: nothing is held, the reply is built from the first sixteen octets -/
 theorem recv_busy (p : Inst) (raw : List Octet) (rest : List SrcEv)
-    (hch : channelRecv p.cfg p.src = (none, raw, rest)) (hcap : 0 < p.cfg.B - p.cfg.F)
+    (hch : channelRecv p.cfg p.src = (none, raw, rest))
     (hne : raw ≠ []) (hal : p.al.script.head?.getD false = true) :
     (regp_recv p).2.1 = { err := some .ebusy, framesize := raw.length, frame := none } ∧
     (regp_recv p).2.2.src = rest ∧
@@ -211,13 +214,13 @@ theorem recv_busy (p : Inst) (raw : List Octet) (rest : List SrcEv)
     ((regp_recv p).1, (regp_recv p).2.2.snk) =
       ((send_early_response p.cfg p.snk (raw.take RP_HEADER_SIZE) 6).rc,
        (send_early_response p.cfg p.snk (raw.take RP_HEADER_SIZE) 6).snk) := by
-  simp [regp_recv, hch, csRun_eq p.cfg p.al hcap raw, csAfter, hne, hal]
+  simp [regp_recv, hch, csRun_eq p.cfg p.al raw, csAfter, hne, hal]
 
 /-- the frame did not fit: the block is returned unparsed, the reply is built from what it holds -/
 theorem recv_overflow (p : Inst) (raw : List Octet) (rest : List SrcEv)
-    (hch : channelRecv p.cfg p.src = (none, raw, rest)) (hcap : 0 < p.cfg.B - p.cfg.F)
+    (hch : channelRecv p.cfg p.src = (none, raw, rest))
     (hal : p.al.script.head?.getD false = false) (hbig : raw.length > p.cfg.B - p.cfg.F) :
-    (regp_recv p).2.1 = { err := some .enomem, framesize := p.cfg.F + raw.length,
+    (regp_recv p).2.1 = { err := some .enomem, framesize := min p.cfg.F p.cfg.B + raw.length,
                           frame := some { raw := raw.take (p.cfg.B - p.cfg.F) } } ∧
     (regp_recv p).2.2.src = rest ∧
     (regp_recv p).2.2.al = { script := p.al.script.tail, live := p.al.live + 1 } ∧
@@ -225,7 +228,7 @@ theorem recv_overflow (p : Inst) (raw : List Octet) (rest : List SrcEv)
       ((send_early_response p.cfg p.snk ((raw.take (p.cfg.B - p.cfg.F)).take RP_HEADER_SIZE) 4).rc,
        (send_early_response p.cfg p.snk ((raw.take (p.cfg.B - p.cfg.F)).take RP_HEADER_SIZE) 4).snk) := by
   have hne : raw ≠ [] := by intro h; rw [h] at hbig; simp at hbig
-  simp [regp_recv, hch, csRun_eq p.cfg p.al hcap raw, csAfter, hne, hal, hbig]
+  simp [regp_recv, hch, csRun_eq p.cfg p.al raw, csAfter, hne, hal, hbig]
 
 /-- an empty frame: no allocation, bad header encoding -/
 theorem recv_empty (p : Inst) (rest : List SrcEv)
@@ -238,10 +241,10 @@ theorem recv_empty (p : Inst) (rest : List SrcEv)
 
 /-- a channel error: nothing is returned and the ledger is where it was -/
 theorem recv_chan_error (p : Inst) (e : Err) (got : List Octet) (rest : List SrcEv)
-    (hch : channelRecv p.cfg p.src = (some e, got, rest)) (hcap : 0 < p.cfg.B - p.cfg.F) :
+    (hch : channelRecv p.cfg p.src = (some e, got, rest)) :
     (regp_recv p).1 = some e ∧ (regp_recv p).2.1 = {} ∧ (regp_recv p).2.2.al.live = p.al.live ∧
     (regp_recv p).2.2.snk = p.snk ∧ (regp_recv p).2.2.src = rest := by
-  simp only [regp_recv, hch, csRun_eq p.cfg p.al hcap got, csAfter]
+  simp only [regp_recv, hch, csRun_eq p.cfg p.al got, csAfter]
   by_cases hg : got = []
   · simp [hg]
   · by_cases hal : p.al.script.head?.getD false = true <;> simp [hg, hal]
